@@ -23,12 +23,19 @@ ASSUMPTIONS = [
 
 @st.composite
 def cases(draw, nums=("frac",), with_nodes=None):
-    src = draw(gen.curves(0, 3, 3, nums=nums, rational=False, dim=draw(st.sampled_from([0, 0, 2])), regimes="all"))
+    high = draw(st.integers(0, 5)) == 0  # degrees 4 and 5 (larger quadrature tables), few knots
+    if high:
+        src = draw(gen.curves(0, 5, 1, nums=nums, rational=False, dim=draw(st.sampled_from([0, 0, 2])), regimes=False))
+    else:
+        src = draw(gen.curves(0, 3, 3, nums=nums, rational=False, dim=draw(st.sampled_from([0, 0, 2])), regimes="all"))
     U, p = src["U"], src["p"]
     bk = gen.breaks_of(U)
     mode = draw(st.sampled_from(["refinement", "generic", "generic"]))
-    if mode == "refinement":
+    if mode == "refinement" and not high:
         Ut, pt = draw(refinement(U, p, 2, 1))
+    elif high:
+        mode = "generic"
+        Ut, pt = draw(gen.knotvectors(0 if p >= 4 else 4, 5, 1, interval=(bk[0], bk[-1])))
     else:
         Ut, pt = draw(gen.knotvectors(0, 3, 3, interval=(bk[0], bk[-1])))
     nt = len(Ut) - pt - 1
